@@ -83,6 +83,8 @@ type ParseResult struct {
 	Fetched int         `json:"f"`
 	Value   interface{} `json:"v,omitempty"`
 	Trace   string      `json:"trace,omitempty"`
+	// TraceCapped: the trace was longer than 6 MB and was not kept
+	TraceCapped bool `json:"trace_capped,omitempty"`
 }
 
 type JobResult struct {
@@ -271,7 +273,7 @@ func beginParse() {
 func endParse() { atomic.StoreInt64(&parseStart, 0) }
 
 // watchdog: a parse that neither requests a token nor runs an action for 300 ms while the heap grows by more than
-// 200 MB (or for 5 s at all) is a driver loop that spins on its own (e.g. reducing by a rule that does not exist):
+// 200 MB (or for 180 s at all) is a driver loop that spins on its own (e.g. reducing by a rule that does not exist):
 // the step budget cannot see it. The partial results are written and the process exits with status 3.
 func watchdog() {
 	var ms runtime.MemStats
@@ -294,7 +296,9 @@ func watchdog() {
 		}
 		runtime.ReadMemStats(&ms)
 		grown := int64(ms.HeapAlloc) - int64(baseline)
-		if grown > 200<<20 || idle > int64(5*time.Second) {
+		// the time-only criterion is a last resort (a loop that does not even allocate); it is far beyond any stall a
+		// loaded machine can cause, so that load can never turn a correct parse into a "diverge" outcome
+		if grown > 200<<20 || idle > int64(180*time.Second) {
 			if atomic.LoadInt64(&parseSeq) != seq || atomic.LoadInt64(&parseStart) == 0 {
 				continue // the parse ended meanwhile
 			}
@@ -366,8 +370,9 @@ func runJob(j *Job) *JobResult {
 					n := st.Size() - off
 					if pr.Outcome == "budget" || pr.Outcome == "diverge" {
 						n = 0 // a looping parse prints without end; its trace is not judged
-					} else if n > 512<<10 {
-						n = 512 << 10
+					} else if n > 6<<20 {
+						n = 0 // too long to keep: marked, and not judged by the trace checks
+						pr.TraceCapped = true
 					}
 					buf := make([]byte, n)
 					tmp.ReadAt(buf, off)
